@@ -142,6 +142,8 @@ class EngineC11:
         sw.shuffle(kinds)
         for k in kinds[: sw.randint(1, 3)]:
             steps.append({"op": "clock_kind", "kind": k, "at": g.randint(1, max(1, it0))})
+        if sw.random() < 0.5:
+            steps.append({"op": "edited_data", "pick": g.randrange(10**6)})
         for step in steps:
             res.steps.append(step)
             if self._exec(prob, step, len(res.steps) - 1, res) is None:
@@ -194,11 +196,12 @@ class EngineC11:
 
         return {"x": x, "make_data": make_data, "make_guess": make_guess, "gw": gw, "gf": gf, "init": init}
 
-    def _solve(self, prob, clock_script, stoptime, maxiters):
+    def _solve(self, prob, clock_script, stoptime, maxiters, data=None):
         """One call of cp_apr in a fresh world; returns dict describing the outcome."""
         ttb = self.ttb
         init = prob["init"]
-        data = prob["make_data"]()
+        if data is None:
+            data = prob["make_data"]()
         guess = prob["make_guess"]()
         opts = dict(init["opts"])
         opts["maxiters"] = maxiters
@@ -314,6 +317,12 @@ class EngineC11:
             res.sim_seconds += out["clock"].span()
             return out
 
+        def solve_with(script, data, p=None):
+            res.bump("solves")
+            out = self._solve(p or prob, script, stoptime, maxiters, data=data)
+            res.sim_seconds += out["clock"].span()
+            return out
+
         def finish(v):
             if v is not None:
                 res.violation = v
@@ -411,6 +420,51 @@ class EngineC11:
                 if got != 1:
                     return finish(Violation("C11", "deadline_stops_after_current_iteration", op + ":" + alg, i, f"stoptime=0 with an advancing clock performed {got} iterations"))
             ev.append(kind)
+            res.events.append(ev)
+            return it0
+        if op == "edited_data":
+            # history on the caller's data object: solve, move one count to an empty cell IN PLACE (same object,
+            # same shape, same number of nonzeros), solve again. Each call must depend on the data as they are now.
+            x = prob["x"]
+            nzs = np.argwhere(x > 0)
+            zs = np.argwhere(x == 0)
+            if nzs.shape[0] < 2 or zs.shape[0] < 1:
+                res.bump("skipped")
+                return it0
+            src = tuple(int(v) for v in nzs[step["pick"] % nzs.shape[0]])
+            dst = tuple(int(v) for v in zs[(step["pick"] // 7) % zs.shape[0]])
+            data = prob["make_data"]()
+            first = solve_with(nominal, data)
+            if self._known_abort(first):
+                return None
+            v = self._contract(prob, first, maxiters, i, op)
+            if v is not None:
+                return finish(v)
+            x2 = x.copy()
+            x2[dst] = x2[src]
+            x2[src] = 0.0
+            if init["sparse"]:
+                k = int(np.where((np.asarray(data.subs) == np.array(src)).all(axis=1))[0][0])
+                data.subs[k, :] = np.array(dst)
+            else:
+                data.data[dst] = data.data[src]
+                data.data[src] = 0.0
+            prob2 = dict(prob)
+            prob2["x"] = x2
+            second = solve_with(nominal, data)
+            res.bump("fault:data_edited_in_place_between_solves")
+            if self._known_abort(second):
+                return None
+            v = self._contract(prob2, second, maxiters, i, op)
+            if v is not None:
+                return finish(v)
+            fresh = solve_with(nominal, data.copy(), prob2)
+            if self._known_abort(fresh):
+                return None
+            diff = self._same_result(second, fresh)
+            if diff is not None:
+                return finish(Violation("C11", "solve_depends_only_on_current_data", op + ":" + alg, i, f"second solve on the edited data object vs. the same data in a new object: {diff}"))
+            ev.append("edited")
             res.events.append(ev)
             return it0
         res.bump("skipped")
